@@ -16,7 +16,8 @@ import Solvor.Pack.Model
 `["intcap", wBits, capBits]`  (`_to_int_capacity`, then `_scaled(w, scale)` per weight)
   reply `[intCapacity, scaleBits, [[int, exact] per weight]]`
 
-`["pack", sR, [capStrict, capFeas], sBits, capBits, algorithm, implAsg|null, implK|null, readings]`
+`["pack", sR, [capStrict, capFeas], sBits, capBits, algorithm, implAsg|null, implK|null, readings, planted|null]`
+  planted  : `[asg, k]`, a packing known by construction (generator); checked with `chkPack` at capStrict
   readings : list of `[cap, sizes]` (exact rationals) for which the optimum is wanted (strict /
              tolerant / shrunk capacity, see ASSUMPTIONS of the check); may be empty
   reply `[[statusF|"ValueError", asgF, kF],              -- Float mirror of solve_bin_pack (name parsing included)
@@ -24,7 +25,8 @@ import Solvor.Pack.Model
           chkImpl@capFeas|null,
           [[minBins, chkPack on its packing, minBinsP] per reading],
               -- fast search + verified certificate (upper bound) and the proved lower bound `minBinsP`
-          ceil(sum/capFeas)]`
+          ceil(sum/capFeas),
+          chkPack on the planted packing | null]`
 -/
 namespace Solvor.Pack
 open Solvor.Proto
@@ -87,7 +89,8 @@ def packVal : Except String PackRes → List Val
   | .ok r => [Val.str r.status.name, Val.ofNats r.asg, Val.int r.k]
 
 def handlePack (sR : List Rat) (caps : List Rat) (sB : List Nat) (capB : Nat) (algorithm : String)
-    (implAsg : Option (List Nat)) (implK : Option Nat) (readings : List (Rat × List Rat)) : Val :=
+    (implAsg : Option (List Nat)) (implK : Option Nat) (readings : List (Rat × List Rat))
+    (planted : Option (List Nat × Nat)) : Val :=
   let capS := caps.getD 0 0
   let capF := caps.getD 1 capS
   let mf := packNamed floatOps (sB.map fOfBits) (fOfBits capB) algorithm
@@ -104,12 +107,20 @@ def handlePack (sR : List Rat) (caps : List Rat) (sB : List Nat) (capB : Nat) (a
       Val.arr [Val.int r.1, Val.bool (chkPack ss c r.2 r.1), Val.int (minBinsP ss c)]
     else Val.null)
   let lb : Int := if 0 < capF then (sR.sum / capF).ceil else 0
-  Val.arr [Val.arr (packVal mf), Val.arr (packVal mr ++ [Val.bool chkR]), chkI, opt, Val.int lb]
+  let pl : Val := match planted with
+    | some (a, k) => Val.bool (chkPack sR capS a k)
+    | none => Val.null
+  Val.arr [Val.arr (packVal mf), Val.arr (packVal mr ++ [Val.bool chkR]), chkI, opt, Val.int lb, pl]
 
 def readings? (v : Val) : Option (List (Rat × List Rat)) := do
   (← v.toArr?).mapM fun r => match r with
     | Val.arr [c, ss] => do pure (← c.toRat?, ← ss.toRats?)
     | _ => none
+
+def planted? (v : Val) : Option (List Nat × Nat) :=
+  match v with
+  | Val.arr [a, k] => do pure (← a.toNats?, ← k.toNat?)
+  | _ => none
 
 def handle (line : String) : String :=
   match request line with
@@ -129,12 +140,12 @@ def handle (line : String) : String :=
     match wB.toNats?, capB.toNat? with
     | some wB, some capB => (handleIntCap wB capB).render
     | _, _ => err "bad arguments"
-  | some ("pack", [sR, caps, sB, capB, algo, iasg, ik, wo]) =>
+  | some ("pack", [sR, caps, sB, capB, algo, iasg, ik, wo, pl]) =>
     match sR.toRats?, caps.toRats?, sB.toNats?, capB.toNat?, algo.toStr?,
-          iasg.toOpt? Val.toNats?, ik.toOpt? Val.toNat?, readings? wo with
-    | some sR, some caps, some sB, some capB, some algo, some iasg, some ik, some wo =>
-      (handlePack sR caps sB capB algo iasg ik wo).render
-    | _, _, _, _, _, _, _, _ => err "bad arguments"
+          iasg.toOpt? Val.toNats?, ik.toOpt? Val.toNat?, readings? wo, pl.toOpt? planted? with
+    | some sR, some caps, some sB, some capB, some algo, some iasg, some ik, some wo, some pl =>
+      (handlePack sR caps sB capB algo iasg ik wo pl).render
+    | _, _, _, _, _, _, _, _, _ => err "bad arguments"
   | _ => err "bad request"
 
 end Solvor.Pack
